@@ -318,6 +318,37 @@ def proof_obligations(pid, cfg):
     return res
 
 
+def coqchk(pid, cfg):
+    """thorough tier: independent re-check of the compiled property file and everything it
+    depends on; returns (ok, summary). Cached per content hash of the dependency closure."""
+    pf = os.path.join(THEORIES, cfg["properties_file"])
+    rel = os.path.relpath(pf, COQ)
+    h = hashlib.sha256()
+    for f in dep_closure(rel):
+        with open(os.path.join(COQ, f), "rb") as fh:
+            h.update(f.encode()); h.update(fh.read())
+    cache = os.path.join(BUILD, "coqchk-%s-%s.txt" % (pid, h.hexdigest()[:16]))
+    if os.path.exists(cache):
+        with open(cache) as f:
+            out = f.read()
+    else:
+        mod = "Murex." + cfg["properties_file"][:-2].replace("/", ".")
+        rc, out = sh(["coqchk", "-silent", "-o", "-Q", "theories", "Murex", mod], cwd=COQ,
+                     timeout=cfg.get("coqchk_timeout", 2400))
+        if rc != 0:
+            return False, "coqchk failed (rc %d): %s" % (rc, out[-1500:])
+        with open(cache, "w") as f:
+            f.write(out)
+    m = re.search(r"\* Axioms:(.*?)\n\s*\n\* Constants/Inductives relying on type-in-type:(.*?)\n\s*\n"
+                  r"\* Constants/Inductives relying on unsafe \(co\)fixpoints:(.*?)\n\s*\n"
+                  r"\* Inductives whose positivity is assumed:(.*?)\n", out, re.S)
+    if not m:
+        return False, "cannot parse coqchk summary: " + out[-800:]
+    ax, tit, unsafe, pos = [" ".join(x.split()) for x in m.groups()]
+    ok = tit == "<none>" and unsafe == "<none>" and pos == "<none>"
+    return ok, "coqchk -o: axioms: %s; type-in-type: %s; unsafe fixpoints: %s; assumed positivity: %s" % (ax, tit, unsafe, pos)
+
+
 # --------------------------------------------------------------------------
 # implementation run
 
@@ -587,6 +618,14 @@ def check(pid, tier, seed, replay=None):
         cov["discharged"] = po["discharged"]
         cov["theorems"] = po["theorems"]
         cov["trusted_base"] = base_trusted(cfg, po["axioms"])
+        if tier == "thorough" and po["ok"] and replay is None:
+            ok, summary = coqchk(pid, cfg)
+            cov["coqchk"] = summary
+            cov["trusted_base"].append(summary)
+            if not ok:
+                po["ok"] = False
+                po["failing"] = summary
+                cov["discharged"] = 0
         proof_broken = None
         if not po["ok"]:
             proof_broken = po["failing"] or "proof obligations"
